@@ -1,6 +1,6 @@
 SPECIFICATION Spec
 CONSTANTS
-  Fams = {"adjacent", "lshape", "overlap", "mixed4"}
+  Fams = {"mixed4"}
   MaxRoutes = 3
   PerClass = 1
   DEV_RemoveNoRebuild = FALSE
@@ -8,6 +8,7 @@ CONSTANTS
   DEV_CopyMisMaps = FALSE
   DEV_PickleNoRebuild = FALSE
   DEV_AddRebuildsFirst = FALSE
+  DEV_DiscHalfRadius = FALSE
 INVARIANT TypeOK
 INVARIANT IndexMirrors
 INVARIANT QueriesExact
